@@ -274,6 +274,19 @@ type built struct {
 func (g *gen) list(n int, types []string, mut int, sameKeyPerType bool) built {
 	b := built{classes: map[string]bool{}}
 	keyOf := map[string]int{}
+	if g.r.Bool() {
+		// half of the lists over the hand-written probe types only (several keys, flat + nested @requires, nullable
+		// keys, key-only types): the enumerated key-shape types (shapes.go) are many and must not thin them out
+		var core []string
+		for _, t := range types {
+			if !isShapeType(t) {
+				core = append(core, t)
+			}
+		}
+		if len(core) > 0 {
+			types = core
+		}
+	}
 	if len(types) > 6 && g.r.Below(3) != 0 {
 		// a few types per list: the schema has many entity types, a group should still have several members
 		sub := make([]string, 0, 5)
@@ -305,6 +318,16 @@ func (g *gen) list(n int, types []string, mut int, sameKeyPerType bool) built {
 		b.markers = append(b.markers, mk)
 	}
 	return b
+}
+
+// isShapeType: an entity type enumerated by shapes.go
+func isShapeType(t string) bool {
+	for _, sp := range shapeSpecs() {
+		if sp.Name == t {
+			return true
+		}
+	}
+	return false
 }
 
 // ensureMaps makes m[path[0]][path[1]]… objects (keeping the ones that are there)
@@ -712,6 +735,72 @@ func printCases(v Variant, probes string, seed uint64, tier string) {
 				emit(CaseJ{ID: nid("shape"), Class: []string{"key-shape", "key-shape:one-key-each"}, Reps: reps})
 			}
 		}
+	}
+
+	// 10. @requires states: for every entity with @requires, every required field in turn unusable (wrong JSON type,
+	//     object for a scalar, null, left out, parent of a nested one not an object) while ALL the others are fine -
+	//     the failure of one required field must not be lost behind the fields after it
+	pack = nil
+	for _, e := range cfg.Entities {
+		if len(e.Resolvers) == 0 || len(e.Requires) == 0 {
+			continue
+		}
+		for k, bad := range e.Requires {
+			kinds := []string{"type", "object", "null", "missing"}
+			if len(bad.Path) > 1 {
+				kinds = append(kinds, "parent")
+			}
+			for ki, kind := range kinds {
+				m, _ := g.rep(e, (k+ki)%len(e.Resolvers), false)
+				for _, rq := range e.Requires {
+					if rq.Type == "Int" || rq.Type == "Int!" {
+						setPath(m, rq.Path, 10+g.r.Below(40))
+					} else {
+						setPath(m, rq.Path, "r"+strconv.Itoa(g.r.Below(50)))
+					}
+				}
+				switch kind {
+				case "type":
+					if bad.Type == "Int" || bad.Type == "Int!" {
+						setPath(m, bad.Path, "zz")
+					} else {
+						setPath(m, bad.Path, []any{1})
+					}
+				case "object":
+					setPath(m, bad.Path, map[string]any{"x": 1})
+				case "null":
+					setPath(m, bad.Path, nil)
+				case "missing":
+					ensureMaps(m, bad.Path[:len(bad.Path)-1])
+					cur := m
+					for _, seg := range bad.Path[:len(bad.Path)-1] {
+						cur = cur[seg].(map[string]any)
+					}
+					delete(cur, bad.Path[len(bad.Path)-1])
+				case "parent":
+					m[bad.Path[0]] = 7
+				}
+				cl := []string{"requires-state", fmt.Sprintf("requires-state:%s@%d/%d", kind, k+1, len(e.Requires))}
+				if e.Multi {
+					emit(CaseJ{ID: nid("req"), Class: append(cl, "multi:alone"), Reps: []map[string]any{m}})
+					first, _ := g.rep(e, (k+ki)%len(e.Resolvers), false)
+					emit(CaseJ{ID: nid("req"), Class: append(cl, "multi:behind-valid-first"), Reps: []map[string]any{first, m}})
+				} else {
+					pack = append(pack, m)
+					if len(pack) == 4 {
+						o := g.entity(singleTypes[g.r.Below(len(singleTypes))])
+						om, _ := g.rep(o, 0, false)
+						pack = append(pack, om)
+						emit(CaseJ{ID: nid("req"), Class: cl, Reps: pack})
+						pack = nil
+					}
+				}
+			}
+		}
+	}
+	if len(pack) > 0 {
+		emit(CaseJ{ID: nid("req"), Class: []string{"requires-state"}, Reps: pack})
+		pack = nil
 	}
 
 	// 8. slow error presenter: the goroutine that resolved a failing representation is still inside ec.Error when
